@@ -94,6 +94,26 @@ def run(ctx):
                            and _is_zero(n.args[0]) for n in ast.walk(po.node))
             ctx.ob('T1.hook', cls, 'push/pop hooks are a matching pair for the backend and _pop_entry returns the smallest entry',
                    pair_ok and bool(rets) and pop0, loc=po.loc, detail='push uses %s, pop uses %s' % (sorted(pcalls), sorted(ocalls)))
+        # T11.heap: the heap backend is changed only through heapq (a plain list mutator bypasses the sift and breaks the
+        # heap order on which "pop returns the smallest entry" rests)
+        if isinstance(pe, FuncInfo) and isinstance(po, FuncInfo) and 'heappush' in pcalls:
+            for hk in (pe, po):
+                bk = hk.params[0] if hk.params else None
+                resort = any(isinstance(n, ast.Call) and (call_name(n) in ('heapify', 'heapq.heapify') or
+                                                         (isinstance(n.func, ast.Attribute) and n.func.attr == 'sort'))
+                             for n in ast.walk(hk.node))
+                raw = [n for n in ast.walk(hk.node) if
+                       (isinstance(n, ast.Call) and isinstance(n.func, ast.Attribute) and txt(n.func.value) == bk and
+                        n.func.attr in ('append', 'insert', 'extend', 'pop', 'remove', 'reverse', '__setitem__', '__delitem__')) or
+                       (isinstance(n, ast.Subscript) and isinstance(n.ctx, (ast.Store, ast.Del)) and txt(n.value) == bk)]
+                if resort:
+                    ctx.info('T11.heap: %s re-establishes the heap itself (heapify/sort); raw mutators not judged' % hk.fq)
+                    continue
+                for n in raw:
+                    ctx.ob('T11.heap', hk.fq, 'the heap is changed only through heapq: `%s` bypasses the sift' % txt(n)[:60], False,
+                           loc=loc(hk, n))
+                if not raw:
+                    ctx.ob('T11.heap', hk.fq, 'the heap is changed only through heapq (no raw list mutator on `%s`)' % bk, True, loc=hk.loc)
         # add
         add = prog.resolve(ci, 'add')
         w, paths = paths_of(prog, add, recv=ci, model=M(prog))
@@ -346,3 +366,54 @@ def barrel_positions(ctx, prog):
                        'provably a single sub-list)', ok, loc=loc(fn, o.node), detail='self.lists[%s] at position %s' % (j, i),
                        path=p.describe() if not ok else None)
     ctx.need('T9.translate', 5)
+    # T9.scan: the sub-list index handed out by _translate_index is found by the scan over the sub-lists (which is what skips
+    # empty ones); a literal or otherwise derived sub-list index addresses a sub-list that may be empty
+    tr = ci.own('_translate_index')
+    if not isinstance(tr, FuncInfo):
+        raise AnalysisError('anchor vanished: BarrelList._translate_index')
+    w, paths = paths_of(prog, tr, recv=ci)
+    loop_targets = {x.id for n_ in ast.walk(tr.node) if isinstance(n_, ast.For) for x in ast.walk(n_.target) if isinstance(x, ast.Name)}
+    n_scan = 0
+    for p in paths:
+        if p.kind != 'return' or not isinstance(p.outcome[1], ast.Tuple) or len(p.outcome[1].elts) != 2:
+            continue
+        a = p.outcome[1].elts[0]
+        if isinstance(a, ast.Constant) and a.value is None:
+            continue
+        n_scan += 1
+        root = a
+        while isinstance(root, ast.Subscript):          # `for i, sub in enumerate(lists)`: the index is <element>[0]
+            root = root.value
+        ok = isinstance(root, ast.Name) and (root.id.startswith('$e') or root.id in loop_targets)
+        ctx.ob('T9.scan', tr.fq, 'the sub-list index returned is the one the scan over the sub-lists stopped at', ok, loc=tr.loc,
+               detail='returns sub-list index `%s`' % txt(w.expand(a)), path=p.describe() if not ok else None)
+    if n_scan == 0:
+        ctx.unknown('T9.scan', tr.fq, 'no (sub-list, position) return found', tr.loc)
+    # T9.rmsub: a sub-list is dropped from `lists` only after *that* sub-list was seen to be empty
+    n_rm = 0
+    for name, fn in ci.members.items():
+        if not isinstance(fn, FuncInfo):
+            continue
+        if not any(isinstance(x, ast.Attribute) and x.attr == 'pop' or isinstance(x, ast.Delete) for x in ast.walk(fn.node)):
+            continue
+        w, paths = paths_of(prog, fn, recv=ci)
+        for p in paths:
+            ts = tests_on(w, p)
+            for o in p.ops:
+                k = None
+                if o.kind == 'call' and isinstance(o.val.func, ast.Attribute) and o.val.func.attr == 'pop' and \
+                        txt(w.expand(o.val.func.value)) == 'self.lists':
+                    k = txt(w.expand(o.val.args[0])) if o.val.args else '-1'
+                elif o.kind == 'sub_del' and isinstance(o.val, ast.Subscript) and txt(w.expand(o.val.value)) == 'self.lists' and \
+                        not isinstance(o.val.slice, ast.Slice):
+                    k = txt(w.expand(o.val.slice))
+                if k is None:
+                    continue
+                n_rm += 1
+                empt = ('self.lists[%s]' % k, 'len(self.lists[%s])' % k)
+                ok = any(t in empt and not truth and x.seq < o.seq for t, truth, x in ts) or \
+                    any(t in ('len(self.lists[%s]) == 0' % k,) and truth and x.seq < o.seq for t, truth, x in ts)
+                ctx.ob('T9.rmsub', '%s.%s' % (ci.fq, name), 'the sub-list dropped from `lists` (index %s) is the one just seen to be empty' % k,
+                       ok, loc=loc(fn, o.node), path=p.describe() if not ok else None)
+    if n_rm == 0:
+        ctx.info('T9.rmsub: no removal of a single sub-list in BarrelList (nothing to check)')
